@@ -54,6 +54,9 @@ class C05(CheckBase):
     def time_budget(self, tier):
         return 170 if tier == "quick" else 1700
 
+    SCALE_EVERY = 1250
+    SCALE_FAULTS = ["tok-del", "tok-dup", "tok-swap", "flip", "paren", "garble", "illegal-complex", "complex-parts"]
+    SCALE_LIMIT = 3.0       # cost(16K copies) / cost(K copies) may be at most factor * SCALE_LIMIT (a purely quadratic path gives factor * 16)
     SWEEP = {"quick": 1, "thorough": 40}   # number of base files whose truncation offsets are enumerated completely
 
     # ------------------------------------------------------------ generator
@@ -87,6 +90,17 @@ class C05(CheckBase):
             plan["faults"] = [{"kind": "truncate", "at": k}]
             plan["delivery"] = W2
             plan["sweep"] = True
+            return self.finish(plan)
+        if i % self.SCALE_EVERY == 7:
+            # scaling probe ("finishes in time proportional to the input"): the same small population, fault-free or with one
+            # fault in every copy, replicated K and 8K times; the cost ratio is judged (see run/judge)
+            plan = self.base_plan(seed, r.randrange(nbase), tier)
+            plan["working"] = False
+            plan["render"] = dict(plan["render"], p_ws=0, p_cmt_between=0, spell=None)
+            names = [e["name"] for e in plan["schema_def"]["entities"]]
+            plan["faults"] = [] if r.random() < 0.4 else [faults.gen_fault(r, kinds=self.SCALE_FAULTS, schema_names=names)]
+            plan["delivery"] = W2
+            plan["scale"] = {"small_insts": r.choice([1500, 2500]), "factor": 16}
             return self.finish(plan)
         plan = self.base_plan(seed, r.randrange(nbase), tier)
         names = [e["name"] for e in plan["schema_def"]["entities"]]
@@ -130,8 +144,70 @@ class C05(CheckBase):
     def cpu_ms(nbytes):
         return 2000 + nbytes // 10
 
+    @staticmethod
+    def scaled_texts(plan):
+        """-> (small, large, copies_small, where, fired) or None when the damaged unit has lost its section structure"""
+        import re
+        unit, fired, where = faults.apply_all(plan["files"]["a.p21"], plan["faults"])
+        a = unit.find("DATA;")
+        b = unit.rfind("ENDSEC;")
+        if a < 0 or b < a + 5:
+            return None
+        head, body, tail = unit[:a + 5], unit[a + 5:b], unit[b:]
+        ids = [int(x) for x in re.findall(r"#(\d{1,7})(?!\d)", body)]
+        n_inst = max(1, len(plan["model"]["insts"]))
+        if not ids or not body.strip():
+            return None
+        stride = max(ids) + 1
+        sc = plan["scale"]
+        k = max(1, sc["small_insts"] // n_inst)
+        while k > 1 and len(body) * k * sc["factor"] > 12 * 2 ** 20:
+            k //= 2
+        if k * n_inst < 200:
+            return None
+
+        def copies(n):
+            out = [head]
+            for m in range(n):
+                off = m * stride
+                out.append(re.sub(r"#(\d{1,7})(?!\d)", lambda mo: "#%d" % (int(mo.group(1)) + off), body) if off else body)
+            out.append(tail)
+            return "".join(out)
+        return copies(k), copies(k * sc["factor"]), k, where, fired
+
+    def run_scale(self, plan, exe):
+        st = self.scaled_texts(plan)
+        if st is None:
+            return {"scale": None, "main": {"steps": [], "end": {"end": "ok"}}, "phase1_end": None, "fired": {}, "where": [], "faulted_len": 0, "changed": False}
+        small, large, k, where, fired = st
+        ops = [{"op": "read", "file": "f.p21"}, {"op": "write_exchange", "into": "o1", "clock": 1000000000}]
+        cost = {}
+        ends = []
+        last = None
+        for name, text in (("small", small), ("large", large)):
+            best = None
+            for _ in range(2):
+                o = pw.run_plan(exe, {"files": {"f.p21": text}, "ops": ops, "cpu_ms": self.cpu_ms(len(text)) * 4})
+                for x in o["steps"]:
+                    if "bytes" in x:
+                        x["bytes_len"] = len(x.pop("bytes"))
+                ends.append(o["end"])
+                last = o
+                c = o["end"].get("cpu_us")
+                if c is not None and (best is None or c < best):
+                    best = c
+                if core.end_class(o["end"]):
+                    break
+            cost[name] = best
+        bad = [e for e in ends if core.end_class(e)]
+        main = dict(last, end=bad[0]) if bad else last
+        return {"scale": {"copies": k, "bytes": [len(small), len(large)], "cost_us": [cost["small"], cost["large"]]},
+                "main": main, "phase1_end": None, "fired": fired, "where": where, "faulted_len": len(large), "changed": bool(plan["faults"])}
+
     def run(self, plan):
         exe = pw.exe_for(self.ss, plan)
+        if plan.get("scale"):
+            return self.run_scale(plan, exe)
         base = plan["files"]["a.p21"]
         phase1 = None
         if plan.get("working"):
@@ -177,6 +253,13 @@ class C05(CheckBase):
                 for k in ("ret", "sev"):
                     if k in o and not (-5 <= o[k] <= 3):
                         out.append({"class": "C05/severity-out-of-range", "detail": "step %s %s=%s" % (o.get("op"), k, o[k])})
+        sc = obs.get("scale")
+        if sc and not ec and sc["cost_us"][0] and sc["cost_us"][1] and sc["cost_us"][0] >= 20000:
+            ratio = sc["cost_us"][1] / float(sc["cost_us"][0])
+            lim = plan["scale"]["factor"] * self.SCALE_LIMIT
+            if ratio > lim:
+                out.append({"class": "C05/superlinear", "detail": "%d copies of the unit cost %d us, %d copies cost %d us: ratio %.1f for a size ratio of %d (limit %.0f); faults %s hit %s" % (
+                    sc["copies"], sc["cost_us"][0], sc["copies"] * plan["scale"]["factor"], sc["cost_us"][1], ratio, plan["scale"]["factor"], lim, plan["faults"], obs["where"])})
         if plan.get("working") and obs["phase1_end"] is not None:
             e1 = core.end_class(obs["phase1_end"])
             if e1:
@@ -192,6 +275,8 @@ class C05(CheckBase):
         where = obs["where"]
         probes = {"eof_inside_string": 0, "eof_inside_header": 0, "eof_inside_complex": 0, "stretch_ge_64_number": 0, "stretch_ge_8192": 0,
                   "nest_ge_1000": 0, "working_session_file": 1 if plan.get("working") else 0, "two_faults": 1 if len(plan["faults"]) > 1 else 0,
+                  "scaling_pairs_timed": 1 if (obs.get("scale") and obs["scale"]["cost_us"][0] and obs["scale"]["cost_us"][0] >= 20000) else 0,
+                  "scaling_pairs_not_timed": 1 if (plan.get("scale") and not (obs.get("scale") and obs["scale"]["cost_us"][0] and obs["scale"]["cost_us"][0] >= 20000)) else 0,
                   "reader_reported_error": 1 if reads and reads[0].get("sev", 3) < 2 else 0,
                   "reader_accepted_damaged_file": 1 if reads and reads[0].get("sev", 3) >= 2 and obs["changed"] else 0}
         for w in where:
@@ -218,6 +303,8 @@ class C05(CheckBase):
         f = ["fault:" + x["kind"] + (":" + x["cls"] if "cls" in x else "") for x in plan["faults"]]
         if plan.get("working"):
             f.append("working-session")
+        if plan.get("scale"):
+            f.append("scaled")
         return f
 
     def sample(self, plan, obs):
